@@ -247,6 +247,10 @@ impl Scenario for Segments {
         for k in 0..SEGMENTS_STREAM_LEN {
             v.push(json!({"cuts": [], "eof_at": k}));
         }
+        // ... and with the end visible in the same read pass as the last byte before it
+        for k in 1..SEGMENTS_STREAM_LEN {
+            v.push(json!({"cuts": [], "eof_at": k, "same_pass": true}));
+        }
         // a second, short session: the server closes the connection right behind OpenOk (three
         // frames in one burst whose order matters)
         v.push(json!({"cuts": [], "closing": true}));
@@ -288,6 +292,7 @@ impl Scenario for Segments {
         cfg.force_cuts = p["cuts"].as_array().unwrap().iter().map(|x| x.as_u64().unwrap() as usize).collect();
         if let Some(k) = p["eof_at"].as_u64() {
             cfg.crash_after_inbound = Some((k as usize, vh::sim::world::FaultKind::ReadEof));
+            cfg.crash_with_last_byte = p["same_pass"] == true;
         }
         Built {
             broker: Box::new(broker),
@@ -380,6 +385,35 @@ impl Scenario for Segments {
                     v.push(("segments:end-of-stream-ignored".into(), format!("the stream ended after {} of {} bytes, yet the session ran as if it had not", k, o.inbound.len())));
                 }
                 return v;
+            }
+            // every frame whose last byte arrived before the end has been acted on: the message
+            // or reply it completes is observed exactly as in the unsegmented run
+            let mut done = 0usize; // how many of `want`'s first four lines are complete within k bytes
+            {
+                let b = &o.inbound;
+                let (mut pos, mut bodies) = (0usize, 0usize);
+                while pos + 8 <= b.len() {
+                    let size = u32::from_be_bytes([b[pos + 3], b[pos + 4], b[pos + 5], b[pos + 6]]) as usize;
+                    let end = pos + 8 + size;
+                    if end > b.len() || end > k as usize {
+                        break;
+                    }
+                    let chan = u16::from_be_bytes([b[pos + 1], b[pos + 2]]);
+                    if chan == 1 && b[pos] == 3 {
+                        bodies += 1;
+                        // delivery = body frames 1+2, return = 3, get = 4
+                        if bodies == 2 || bodies == 3 || bodies == 4 {
+                            done += 1;
+                        }
+                    }
+                    if chan == 1 && b[pos] == 1 && size >= 4 && b[pos + 7..pos + 11] == [0, 50, 0, 11] {
+                        done += 1;
+                    }
+                    pos = end;
+                }
+            }
+            if got.len() < done || got[..done] != want[..done] {
+                v.push(("segments:complete-frame-not-acted-on".into(), format!("stream ended at {}: the frames completing {:?} had arrived entirely, observed {:?}", k, &want[..done], got)));
             }
             let i = got.iter().zip(want.iter()).position(|(g, w)| g != w).unwrap_or(got.len().min(want.len()));
             let is_err = |l: &String| l.contains("Err(") || l.contains("disconnected") || l.starts_with("consumer ");
